@@ -104,8 +104,16 @@ def shard(rec, tier, index, n_shards):
         rec.count("medium_size_cases")
         do_case(rec, case, one_request=(n % 2 == 0))
         n += 1
+    for case in engine.wide_cases(rng, 8 if tier == "quick" else 300):
+        rec.count("wide_cases")
+        do_case(rec, case, one_request=(n % 2 == 0))
+        n += 1
     for case in engine.high_order_cases(rng, 6 if tier == "quick" else 400):
         rec.count("high_order_cases")
+        do_case(rec, case, one_request=(n % 2 == 0))
+        n += 1
+    for case in engine.huge_dim_cases(rng, 10 if tier == "quick" else 600):
+        rec.count("huge_dimension_cases")
         do_case(rec, case, one_request=(n % 2 == 0))
         n += 1
     # every output format of a few simple shapes (engine.output_exhaustive_cases)
@@ -171,7 +179,7 @@ def finish_default_capacity_leg(run, big):
         for pr in d["problems"]:
             run.evaluated()
             run.violation("default-capacity-growth:" + ("malformed:" + pr["malformed"] if "malformed" in pr else "wrong-result"), pr)
-        if len(d["cases"]) + len(d["problems"]) < 4:
+        if len(d["cases"]) + len(d["problems"]) < 6:
             run.inconclusive_because("the default-capacity growth leg ran fewer kernels than planned")
     finally:
         rm_tree(wd)
